@@ -18,7 +18,7 @@ CHECKS = {
    note=TB + " HMAC is a secure MAC; hmac.Equal compares whole slices.",
    tech="static analysis: must-pass-through / dominance, who-may-call, slice-span linear forms, error-discipline paths, E2 bounds prover"),
  "C03": dict(cat="other",
-   text="Decides structural necessary conditions of the plain round trip on wire-slot tables from SSA (bit-provenance vectors for masks/shifts/byte order, linear forms for offsets, flow-insensitive buffer families on the encode side, token sequences for the stream-style EAP-AKA' codec): W subset-of R for every field bit and octet string of 27 records (spans normalised through the encoder's length slots), every field bit within the domain width emitted and stored, every field covered on both sides, dispatch bijections (16 payload types, 5 EAP methods), the generic-header chain rule, sibling agreement (IDi/IDr, TSi/TSr incl. the shared selector record per function), EAP-AKA' case sets and per-case token sequences. Value-level equality for arbitrary contents is not decided. An object a decoder allocates for a list element inside a loop is collected on every path of the iteration that does not fail, unless a comparison of decoded data with a constant (a type code that is not filed) leaves it out (decode.element-kept).",
+   text="Decides structural necessary conditions of the plain round trip on wire-slot tables from SSA (bit-provenance vectors for masks/shifts/byte order, linear forms for offsets, flow-insensitive buffer families on the encode side, token sequences for the stream-style EAP-AKA' codec): W subset-of R for every field bit and octet string of 27 records (spans normalised through the encoder's length slots), every field bit within the domain width emitted and stored, every field covered on both sides, dispatch bijections (16 payload types, 5 EAP methods), the generic-header chain rule, sibling agreement (IDi/IDr, TSi/TSr incl. the shared selector record per function), EAP-AKA' case sets and per-case token sequences. Value-level equality for arbitrary contents is not decided. An object a decoder allocates for a list element inside a loop is collected on every path of the iteration that does not fail, unless a comparison of decoded data with a constant (a type code that is not filed) leaves it out (decode.element-kept). No loop counter of a narrow integer type in the codec functions can be stepped past the end of its type under its loop guard (codec.counter-no-wrap: a list of 255 elements is walked 255 times), and a length an encoder narrows behind a 'does it fit' guard is provably within the width under that guard (encode.guarded-narrowing).",
    ref="DESIGN.md 3.6, 4 C03",
    note=TB + " Domain restrictions of the property (attribute types < 2^15, versions <= 15, vendor id < 2^24).",
    tech="static analysis: wire-slot table extraction (bit provenance over SSA) and encoder/decoder table comparison"),
@@ -28,7 +28,7 @@ CHECKS = {
    note=TB + " Entry contracts: non-nil receivers, header parsed from the same bytes, IKESAKey nil or fully populated; Iv/Padding never assigned by non-test code.",
    tech="static analysis: SSA dataflow with wrap-aware linear forms, dominator facts, loop-variant templates"),
  "C05": dict(cat="other",
-   text="Compares the encoder's and the decoder's wire-slot tables (extracted from SSA) with a reference layout transcribed independently from RFC 7296 section 3 / RFC 3748: W = spec and R = spec for every fixed-offset field (offset, width, byte order, mask), octet-string positions, length/count slots (carrying the final length), constants and 2/3/0 markers; reserved regions and the critical bit written and read by nobody; chain rule; transforms filed by type only. Symmetric encoder+decoder deviations, invisible to a round trip, are caught here. 'An independent parser recovers the fields' is replaced by table equality (necessary; sufficient for fixed-offset fields).",
+   text="Compares the encoder's and the decoder's wire-slot tables (extracted from SSA) with a reference layout transcribed independently from RFC 7296 section 3 / RFC 3748: W = spec and R = spec for every fixed-offset field (offset, width, byte order, mask), octet-string positions, length/count slots (carrying the final length), constants and 2/3/0 markers; reserved regions and the critical bit written and read by nobody; chain rule; transforms filed by type only. Symmetric encoder+decoder deviations, invisible to a round trip, are caught here. 'An independent parser recovers the fields' is replaced by table equality (necessary; sufficient for fixed-offset fields). No loop counter of a narrow integer type in the codec functions can be stepped past the end of its type under its loop guard (codec.counter-no-wrap: a list of 255 elements is walked 255 times), and a length an encoder narrows behind a 'does it fit' guard is provably within the width under that guard (encode.guarded-narrowing).",
    ref="DESIGN.md 3.6, 4 C05",
    note=TB + " spec/wire_layout.json is hand-transcribed from the RFCs (independent of the code, not of the author).",
    tech="static analysis: wire-slot table extraction and comparison with an RFC reference table"),
@@ -63,7 +63,7 @@ CHECKS = {
    note=TB + " Reference table transcribed from RFC 7296/3602/2403/2404/4868 and IANA; registries immutable after init (C18).",
    tech="static analysis: constant propagation over registry initialisers and descriptor methods, decision-tree enumeration, dominance rules"),
  "C12": dict(cat="other",
-   text="Decides structural necessary conditions of decode/encode stability on the wire-slot tables: R subset-of W (nothing the decoder keeps is dropped or moved by re-encoding), no decode-only fields, every field bit emitted, W subset-of R for byte identity of canonical datagrams, length slots final, EAP-AKA' token alignment (only zero padding dropped) and sorted attribute iteration. The fixed-point claim for inputs with inconsistent counts is not decided. Every list element the decoder allocates is collected unless a comparison with a constant leaves it out (decode.element-kept): no element of an accepted datagram is dropped depending on what was decoded before.",
+   text="Decides structural necessary conditions of decode/encode stability on the wire-slot tables: R subset-of W (nothing the decoder keeps is dropped or moved by re-encoding), no decode-only fields, every field bit emitted, W subset-of R for byte identity of canonical datagrams, length slots final, EAP-AKA' token alignment (only zero padding dropped) and sorted attribute iteration. The fixed-point claim for inputs with inconsistent counts is not decided. Every list element the decoder allocates is collected unless a comparison with a constant leaves it out (decode.element-kept): no element of an accepted datagram is dropped depending on what was decoded before. No loop counter of a narrow integer type in the codec functions can be stepped past the end of its type under its loop guard (codec.counter-no-wrap: a list of 255 elements is walked 255 times), and a length an encoder narrows behind a 'does it fit' guard is provably within the width under that guard (encode.guarded-narrowing).",
    ref="DESIGN.md 3.6, 4 C12",
    note=TB,
    tech="static analysis: wire-slot table extraction and decoder/encoder table comparison, token-sequence comparison"),
@@ -98,7 +98,7 @@ CHECKS = {
    note=TB + " crypto/rand.Reader is concurrency-safe by contract; data-race freedom inside the standard library is not analysed.",
    tech="static analysis: global-write / escape analysis (interprocedural alias analysis over SSA), import and instruction scan"),
  "C19": dict(cat="other",
-   text="Compares every Build* method with a reference table (field <- argument by position, slices copied, exactly one append to the container's current content, nothing else stored, element returned iff documented); NewHeader/NewMessage field and flag assignments with the accessors evaluated over all 256 flag values; the 3GPP helpers' layouts (vendor 10415 / type 3 / message ids / spare / BE16 NAS length / PDU; 5G_QOS_INFO element order and DCSI/DSCPI bits; notify type constants) through the encode-side buffer tables; and proves every narrowing length conversion lossless from its dominating guard. net.ParseIP is not analysed.",
+   text="Compares every Build* method with a reference table (field <- argument by position, slices copied, exactly one append to the container's current content, nothing else stored, element returned iff documented); NewHeader/NewMessage field and flag assignments with the accessors evaluated over all 256 flag values; the 3GPP helpers' layouts (vendor 10415 / type 3 / message ids / spare / BE16 NAS length / PDU; 5G_QOS_INFO element order and DCSI/DSCPI bits; notify type constants) through the encode-side buffer tables; and proves every narrowing length conversion lossless from its dominating guard. net.ParseIP is not analysed. What the builders append is observed through its encoding: a length narrowed behind a 'does it fit' guard in the encoders is provably within the width under that guard (encode.guarded-narrowing).",
    ref="DESIGN.md 4 C19",
    note=TB + " spec/builders.json written from the builders' documented meaning and TS 24.502.",
    tech="static analysis: field<-parameter table extraction on SSA, buffer-family tables, finite-domain evaluation of flag accessors, interval proofs for narrowing conversions"),
